@@ -515,8 +515,8 @@ fn wait_for_token(mut st: MutexGuard<'static, State>, me: usize) {
         st = g;
         if t.timed_out() {
             waited += 1;
-            if waited > 40 {
-                do_abort(&mut st, "stall: a parked thread did not get the token back within 20 s");
+            if waited > 360 {
+                do_abort(&mut st, "stall: a parked thread did not get the token back within 180 s");
                 return;
             }
         }
@@ -745,8 +745,8 @@ fn hook_spawner_point(p: SpawnerPoint, n: usize) {
         }
         if t.timed_out() {
             waited += 1;
-            if waited > 40 {
-                do_abort(&mut st, "stall: spawned worker did not register within 20 s");
+            if waited > 360 {
+                do_abort(&mut st, "stall: spawned worker did not register within 180 s");
                 return;
             }
         }
